@@ -47,9 +47,18 @@ def bounds(tier):
             "thorough": "same with lists up to length 4 and 10 scenarios"}[tier]
 
 
+_PRODUCED = []
+
+
 class _S(BaseSampler):
+    """Scripted sampler; records (class-level, so instances stay picklable) which class produced each row."""
+
+    def __init__(self, batch_size):
+        super().__init__(batch_size, max_deduplication_passes=0)
+
     def sample_batch(self, batch_size, search_space, existing_points, existing_losses):
         k = len(existing_points)
+        _PRODUCED.extend([type(self).__name__] * batch_size)
         return np.array([[0.125 * ((k + r) % 9)] for r in range(batch_size)])
 
 
@@ -176,29 +185,13 @@ class _Rec:
 
 def _run_scenario(idx, folder):
     init, steps = SCENARIOS[idx]
-    rec = []
+    del _PRODUCED[:]
     samplers = [CLASSES[k](1 + (j % 2)) for j, k in enumerate(init)]
     c = _calibrator(samplers, folder)
     tables = [dict(c.samplers_id_table)]
-
-    def wrap(slist):
-        for s in slist:
-            if getattr(s, "_wrapped", False):
-                continue
-            orig = s.sample
-
-            def sample(space, p, l, s=s, orig=orig):
-                out = orig(space, p, l)
-                rec.extend([type(s).__name__] * len(out))
-                return out
-
-            s.sample = sample
-            s._wrapped = True
-
     with contextlib.redirect_stdout(io.StringIO()):
         for (nb, repl) in steps:
-            wrap(c.scheduler.samplers)
-            c.calibrate(nb)
+            c.calibrate(nb)  # with a folder set the calibrator itself writes a checkpoint after every batch
             tables.append(dict(c.samplers_id_table))
             if repl is not None:
                 kind, cl = repl
@@ -208,12 +201,7 @@ def _run_scenario(idx, folder):
                 else:
                     c.set_scheduler(RoundRobinScheduler(new))
                 tables.append(dict(c.samplers_id_table))
-        if folder is not None:
-            # unwrap (instance attributes holding closures are not picklable) and write the final checkpoint
-            for s in c.scheduler.samplers:
-                s.__dict__.pop("sample", None)
-                s.__dict__.pop("_wrapped", None)
-            c.create_checkpoint(folder)
+    rec = list(_PRODUCED)
     return c, rec, tables
 
 
@@ -311,7 +299,7 @@ def cases(tier, seed):
     cs = []
     maxL = 3 if tier == "quick" else 4
     for mut in ("update", "set_samplers", "set_scheduler"):
-        for L in range(0, maxL + 1):
+        for L in range(1 if mut == "set_scheduler" else 0, maxL + 1):
             cs.append(case_step(mut, L))
     cs.append(case_labels(6 if tier == "quick" else len(SCENARIOS)))
     return cs
